@@ -121,6 +121,18 @@ CHECKS = {
         "VERIF_SEED; the claim is over partitions/merges, not over all values. Single numba thread.",
         "DESIGN.md section 3 C10",
     ),
+    "C11": (
+        "exploration",
+        "exhaustive enumeration of fold geometries x periods x accelerations x DMs x gulps on labelled files vs a float64 phase-model reference",
+        "kernels.fold (counts and sums), Filterbank.fold and TimeSeries.fold are run for every (nbins, nints, nbands) the library's own "
+        "10-samples-per-cell rule allows, 5 period/tsamp ratios (integer, near-integer, irrational-ish), 4-5 accelerations, DMs giving zero, "
+        "small, large and negative delay tables on a descending and an ascending band, and 7 gulps incl. 2*maxdelay-1; counts must sum to "
+        "(N-maxdelay)*C and equal the reference per cell, cubes must equal the per-cell means exactly and be bit-identical for all gulps; "
+        "strictly periodic pulse trains must occupy one bin per sub-integration.",
+        "Phase formula = the kernel's documented one in float64 from float32-rounded parameters; cases with a phase within 1e-6 of a bin edge "
+        "or an empty reference cell are skipped and counted. Whole-file folds only. N=240.",
+        "DESIGN.md section 3 C11",
+    ),
 }
 
 ENGINES = [
